@@ -155,6 +155,13 @@ def _case(i):
             off += ln
         chs = rng.choice(['한', '€', '한', '😀한', 'é한'])
         text = ''.join(pre) + 'b' * rng.choice([0, 0, 1, 2, 65535]) + chs * (23000 // len(chs) + rng.randint(0, 3)) + rng.choice(['\n', '\nlast line without terminator', ''])
+    only_cfg = None
+    if 8 <= i < 14:
+        # ONE line longer than 1 MiB made of 3-byte characters (a character lies across byte 2^20 of the line), copied by
+        # the until-end-of-input program; one configuration per case so that the six runs proceed in parallel
+        kind = 'mega_line'
+        only_cfg = ('i0', 'i1', 'i2', 'c0', 'c1', 'c2')[i - 8]
+        text = 'ab'[:rng.randint(0, 2)] + rng.choice(['한', '€']) * 352000 + rng.choice(['\n', '\n끝', ''])
     sb = text.encode('utf-8')
     res['hist']['text:' + kind] = 1
     res['hist']['stdin_bytes'] = len(sb)
@@ -168,7 +175,10 @@ def _case(i):
     res['key'] = C.sha(text)
     cands = [p for p in PROGRAMS if len(text) >= p[3]]
     progs = rng.sample(cands, min(len(cands), 2 if len(text) > 2000 else 3))
-    if kind in ('long_multibyte_line', 'long_line', 'aligned_long_line'):
+    if kind == 'mega_line':
+        progs = [p for p in PROGRAMS if p[0] == 'cat']
+        res['hist']['line>1MiB'] = 1
+    elif kind in ('long_multibyte_line', 'long_line', 'aligned_long_line'):
         # (the cushion variants cost three times as much per character: only on the shorter of the long texts)
         pick = rng.choice(['cat', 'cat_exit'] + (['cat_cushion', 'cat_cushion_mul', 'cat_cushion_neg'] if len(text) <= 12000 else []))
         progs = [p for p in PROGRAMS if p[0] == pick]
@@ -177,14 +187,16 @@ def _case(i):
         d = os.path.join(_RUN['dir'], name)
         path = os.path.join(d, 'p.hyeong')
         for cfg in ('i0', 'i1', 'i2', 'c0', 'c1', 'c2'):
+            if only_cfg is not None and cfg != only_cfg:
+                continue
             level = int(cfg[1])
             if cfg[0] == 'i':
-                obs = P.run_interp(C.HYEONG, path, level, sb, cpu=120, wall=600)
+                obs = P.run_interp(C.HYEONG, path, level, sb, cpu=400 if only_cfg else 120, wall=1200 if only_cfg else 600)
             else:
                 exe = _RUN['exes'].get((name, level))
                 if exe is None:
                     continue
-                obs = K.run_exe(exe, sb, cpu=120, wall=600)
+                obs = K.run_exe(exe, sb, cpu=400 if only_cfg else 120, wall=1200 if only_cfg else 600)
             res['hist']['runs'] = res['hist'].get('runs', 0) + 1
             res['hist']['config:' + cfg] = res['hist'].get('config:' + cfg, 0) + 1
             sig = '%s:%s:%s' % (name, cfg, res['key'])
@@ -262,6 +274,6 @@ def main(tier, seed):
     }
     assumptions = ['expected output is the identity / reversal formula on the input text; the reference interpreter only validates the formulas on short inputs at start-up',
                    'end of input must appear to the program as NaN and only then: copying beyond the end prints the NaN text, copying until NaN stops exactly at the end']
-    minimum = {'runs': (hist.get('runs', 0), 1500), 'lines longer than 64 KiB': (hist.get('line>64KiB', 0), 1), 'astral texts': (hist.get('plane:1', 0) + hist.get('plane:3', 0), 50),
+    minimum = {'runs': (hist.get('runs', 0), 1500), 'lines longer than 64 KiB': (hist.get('line>64KiB', 0), 1), 'runs on a line longer than 1 MiB': (hist.get('line>1MiB', 0), 4), 'astral texts': (hist.get('plane:1', 0) + hist.get('plane:3', 0), 50),
                'no final newline': (hist.get('no_final_newline', 0), 40), 'executables': (len(_RUN['exes']), 30)}
     return rep.finish(cov, assumptions, t0, minimum)
